@@ -2,6 +2,8 @@ package props
 
 import (
 	"fmt"
+	"runtime/debug"
+	"sync"
 	"time"
 
 	"go.sia.tech/core/types"
@@ -80,6 +82,71 @@ func pollOnce(e *sim.Env, inv string, s *chainSUT, tree *gen.Tree, sub *subscrib
 	return len(rus) + len(aus)
 }
 
+// concurrentPoll is one UpdatesSince call issued while a submission was in
+// progress. What the manager's best chain was at the instant the call took its
+// snapshot is unknowable from outside, so the rules are those that hold for
+// either answer: no error, at most max updates, reverts walk back block by
+// block from the subscriber's index, applies walk forward child by child over
+// valid blocks, and the path ends on the best chain as it was before the
+// submission or as it is after it.
+type concurrentPoll struct {
+	sub   *subscriber
+	start types.ChainIndex
+	max   int
+	delay int
+	rus   []chain.RevertUpdate
+	aus   []chain.ApplyUpdate
+	err   error
+}
+
+func (cp *concurrentPoll) check(e *sim.Env, tree *gen.Tree, oldTip, newTip *gen.Node) {
+	inv, sub := "C04", cp.sub
+	if cp.err != nil {
+		e.Violationf(inv+".updates-error", "error-concurrent", "%s: UpdatesSince(%v, %d) concurrent with a submission failed: %v", sub.name, cp.start, cp.max, cp.err)
+	}
+	if len(cp.rus)+len(cp.aus) > cp.max {
+		e.Violationf(inv+".max-updates", "too-many", "%s: UpdatesSince(%v, %d) returned %d reverts + %d applies", sub.name, cp.start, cp.max, len(cp.rus), len(cp.aus))
+	}
+	for i, ru := range cp.rus {
+		cur := sub.sh.idx
+		if ru.Block.ID() != cur.ID {
+			e.Violationf(inv+".revert-contiguous", "wrong-block", "%s (concurrent poll): revert %d is for block %v but the subscriber is at %v", sub.name, i, ru.Block.ID(), cur)
+		}
+		if ru.State.Index.ID != ru.Block.ParentID || ru.State.Index.Height+1 != cur.Height {
+			e.Violationf(inv+".revert-contiguous", "wrong-parent", "%s (concurrent poll): revert %d of %v leads to %v, not to its parent", sub.name, i, cur, ru.State.Index)
+		}
+		e.Guard(inv+".panic", "fold revert", func() { sub.sh.revert(ru) })
+	}
+	for i, au := range cp.aus {
+		cur := sub.sh.idx
+		want := types.ChainIndex{Height: cur.Height + 1, ID: au.Block.ID()}
+		if cur == (types.ChainIndex{}) {
+			want.Height = 0
+		} else if au.Block.ParentID != cur.ID {
+			e.Violationf(inv+".apply-contiguous", "not-child", "%s (concurrent poll): apply %d is block %v whose parent is %v, the subscriber is at %v", sub.name, i, au.Block.ID(), au.Block.ParentID, cur)
+		}
+		if au.State.Index != want {
+			e.Violationf(inv+".apply-contiguous", "wrong-index", "%s (concurrent poll): apply %d reports state index %v, expected %v", sub.name, i, au.State.Index, want)
+		}
+		if n, ok := tree.ByID[want.ID]; !ok || !n.Valid() {
+			e.Violationf(inv+".apply-contiguous", "unknown-block", "%s (concurrent poll): apply %d is for a block that is not a valid block of the tree", sub.name, i)
+		}
+		e.Guard(inv+".panic", "fold apply", func() { sub.sh.apply(au) })
+	}
+	if len(cp.rus)+len(cp.aus) > 0 {
+		// a chunk used up by reverts may end anywhere on the way back; one that
+		// applies anything has passed the fork point
+		end, ok := tree.ByID[sub.sh.idx.ID]
+		if len(cp.aus) > 0 && (!ok || !(end.IsAncestorOf(oldTip) || end.IsAncestorOf(newTip))) {
+			e.Violationf(inv+".apply-contiguous", "torn-path", "%s: a poll concurrent with the submission %s -> %s ends at %v, which is on neither best chain", sub.name, oldTip.Describe(), newTip.Describe(), sub.sh.idx)
+		}
+		if len(cp.aus) > 0 && len(cp.rus) > 0 {
+			e.Probe("concurrent_poll_crossed_fork")
+		}
+		e.Probe("concurrent_poll_progress")
+	}
+}
+
 // checkShadow compares a caught-up subscriber with the reference ledger.
 func checkShadow(e *sim.Env, inv string, s *chainSUT, tree *gen.Tree, sub *subscriber) {
 	n, ok := tree.ByID[sub.sh.idx.ID]
@@ -135,13 +202,70 @@ func runC04(e *sim.Env) {
 		n1, n2 := len(notes1), len(notes2)
 		var err error
 		call := "AddBlocks"
-		if states, ok := s.validatedStates(batch); ok && e.Chance(1, 2) {
+		states, viaValidated := s.validatedStates(batch)
+		viaValidated = viaValidated && e.Chance(1, 2)
+		if viaValidated {
 			// the syncer's second entry point
 			call = "AddValidatedV2Blocks"
 			e.Probe("via_add_validated")
-			e.Guard("C04.panic", call, func() { err = s.cm.AddValidatedV2Blocks(blocksOf(batch), states) })
+		}
+		submit := func() {
+			if viaValidated {
+				err = s.cm.AddValidatedV2Blocks(blocksOf(batch), states)
+			} else {
+				err = s.cm.AddBlocks(blocksOf(batch))
+			}
+		}
+		// lock-yield flavour, 1 submission in 3: subscribers poll while the
+		// submission (and its reorg) is in progress; the seeded scheduler decides
+		// every Lock / Unlock of the manager
+		var cps []*concurrentPoll
+		if sim.LockYields && len(subs) > 0 && e.Chance(1, 3) {
+			for _, sub := range subs {
+				if len(cps) < 3 && e.Chance(1, 2) {
+					cps = append(cps, &concurrentPoll{sub: sub, start: sub.sh.idx, max: e.Range(1, 8), delay: e.Range(0, 10)})
+				}
+			}
+		}
+		if len(cps) > 0 {
+			var crash string
+			e.WithSchedule(400, func() {
+				var wg sync.WaitGroup
+				guard := func(fn func()) {
+					wg.Add(1)
+					go func() {
+						defer wg.Done()
+						defer func() {
+							if x := recover(); x != nil && crash == "" {
+								crash = fmt.Sprintf("%v\n%s", x, debug.Stack())
+							}
+						}()
+						fn()
+					}()
+				}
+				guard(submit)
+				for _, cp := range cps {
+					cp := cp
+					guard(func() {
+						// let the submission get a drawn number of scheduling
+						// points ahead (into its reorg) before asking
+						for i := 0; i < cp.delay; i++ {
+							sim.YieldPoint("poll-start")
+						}
+						cp.rus, cp.aus, cp.err = s.cm.UpdatesSince(cp.start, cp.max)
+					})
+				}
+				wg.Wait()
+			})
+			if crash != "" {
+				if sim.PanicInSUT(crash) {
+					e.Violationf("C04.panic", "concurrent", "%s concurrent with UpdatesSince panicked: %.1500s", call, crash)
+				}
+				panic("C04 concurrent phase: " + crash)
+			}
+			e.Fault("polls-concurrent-with-submission")
 		} else {
-			e.Guard("C04.panic", call, func() { err = s.cm.AddBlocks(blocksOf(batch)) })
+			e.Guard("C04.panic", call, submit)
 		}
 		newTip := auditBestChain(e, "C04", s, tree)
 		e.Logf("%s(%d, last %s) -> err=%v tip %s", call, len(batch), batch[len(batch)-1].Describe(), err != nil, newTip.Describe())
@@ -168,6 +292,9 @@ func runC04(e *sim.Env) {
 				e.Nontrivial = true
 				e.Shape("reorg", bucket(d))
 			}
+		}
+		for _, cp := range cps {
+			cp.check(e, tree, tip, newTip)
 		}
 		tip = newTip
 		if !cancelled && e.Chance(1, 20) {
@@ -218,10 +345,10 @@ func runC04(e *sim.Env) {
 
 func init() {
 	register(&Prop{
-		ID: "C04", Run: runC04, Quick: 900, Thorough: 25000, Level: "exploration",
-		Rule:        "one run = C02-style history with 1-6 subscribers that start from nothing or from a snapshot of any index a subscriber reached before (including indices on branches that are stale by now), poll UpdatesSince with chunk sizes 1-8 at drawn moments between submissions and fold the returned diffs and proof updates into a shadow ledger; every poll is checked for the chunk bound and for contiguity (reverts walk back block by block off the best chain, applies walk forward on it); whenever a subscriber has caught up its shadow ledger must equal the reference ledger (elements, leaf indices, proofs, chain index elements) and verify against the accumulator; two OnReorg listeners (one calling back into the manager, one cancelled at a drawn moment) must be called exactly when the tip changed; distinct = abstract trace; non-trivial = a reorg that reverts blocks",
+		ID: "C04", Run: runC04, Flavour: "instrumented", Quick: 900, Thorough: 25000, Level: "exploration",
+		Rule:        "one run = C02-style history with 1-6 subscribers that start from nothing or from a snapshot of any index a subscriber reached before (including indices on branches that are stale by now), poll UpdatesSince with chunk sizes 1-8 at drawn moments between submissions and fold the returned diffs and proof updates into a shadow ledger; every poll is checked for the chunk bound and for contiguity (reverts walk back block by block off the best chain, applies walk forward on it); whenever a subscriber has caught up its shadow ledger must equal the reference ledger (elements, leaf indices, proofs, chain index elements) and verify against the accumulator; in the lock-yield flavour 1 submission in 3 runs concurrently with up to 3 UpdatesSince calls under the seeded lock-level scheduler (no error, chunk bound, contiguity, path ends on the best chain before or after the submission; the folded ledger is compared as usual once the subscriber has caught up); two OnReorg listeners (one calling back into the manager, one cancelled at a drawn moment) must be called exactly when the tip changed; distinct = abstract trace; non-trivial = a reorg that reverts blocks",
 		Real:        []string{"chain.Manager (UpdatesSince, OnReorg)", "chain.DBStore"},
 		Stub:        []string{"disk: simdisk.DB"},
-		Assumptions: []string{"sequential interleaving of polls and submissions in this check; the concurrent half is covered by the lock-level schedule check of the same property when the instrumented flavour is available"},
+		Assumptions: []string{"concurrent polls are judged by the rules that hold whichever side of the submission the call landed on (the instant of its snapshot is not observable)"},
 	})
 }
